@@ -2,7 +2,7 @@
 From Coq Require Extraction.
 From Coq Require Import ExtrOcamlBasic.
 From SQ Require Import lib.Base.
-From SQ Require model.Spsc model.SpscExplore model.CursorRing model.Worker model.RxRing.
+From SQ Require model.Spsc model.SpscExplore model.CursorRing model.Worker model.RxRing model.TxRings.
 Extraction Language OCaml.
 
 Definition spsc_run := Spsc.run.
@@ -15,4 +15,6 @@ Definition spsc_explore_run := SpscExplore.explore_run.
 Definition spsc_explore_judge := SpscExplore.explore_judge.
 Definition rxring_run := RxRing.run.
 Definition rxring_judge := RxRing.judge.
-Extraction "../ocaml/gen/C17/model.ml" rxring_run rxring_judge spsc_explore_run spsc_explore_judge spsc_run spsc_judge cursor_run cursor_judge worker_run worker_judge.
+Definition txrings_run := TxRings.run.
+Definition txrings_judge := TxRings.judge.
+Extraction "../ocaml/gen/C17/model.ml" txrings_run txrings_judge rxring_run rxring_judge spsc_explore_run spsc_explore_judge spsc_run spsc_judge cursor_run cursor_judge worker_run worker_judge.
